@@ -9,11 +9,6 @@
 
 namespace vs {
 
-template <class SrcValue> struct conv_dst
-{
-    using type = typename std::conditional<std::is_same<SrcValue, gil::gray8_pixel_t>::value, gil::rgb8_pixel_t, gil::gray8_pixel_t>::type;
-};
-
 // source pixel type seen by a colour conversion: the whole pixel, or (channel views) a gray pixel of the channel type
 template <class Full, bool ChannelView> struct src_pixel_of { using type = Full; };
 template <class Full> struct src_pixel_of<Full, true> { using type = gil::pixel<typename gil::channel_type<Full>::type, gil::gray_layout_t>; };
@@ -101,7 +96,7 @@ struct C02Policy
         {
             long sx = m.sx(x, y), sy = m.sy(x, y);
             SrcP s = model_pixel<SrcP>(root, sx, sy, Ch == 1 ? m.k : -1);
-            DstP e; gil::color_convert(s, e);
+            DstP e; const BiasedCC cc(CONV_BIAS); cc(s, e);      // the converter the view was built with (vs_explore.hpp)
             std::vector<uint64_t> want, got;
             for_channels(e, [&](int i, auto&& ch) { if (Ch != 2 || i == m.k2) want.push_back(chan_pattern(ch)); });
             auto px = v(x, y);
